@@ -72,6 +72,8 @@ def sim_inputs(seed, count, tier, dims=(3,), pers=(False, True), start_id=1):
         kind = kinds[i % len(kinds)]
         i += 1
         dim = rng.choice(dims)
+        if kind == "sheet" and 3 in dims:
+            dim = 3
         per = rng.choice(pers)
         gcap = min(gmax, 4) if per else gmax          # periodic: images reach 3G, keep integers small
         if kind == "aniso":
@@ -115,8 +117,10 @@ def sim_inputs(seed, count, tier, dims=(3,), pers=(False, True), start_id=1):
             sel = cand if len(cand) <= n else rng.sample(cand, n)
         elif kind == "sheet":
             ax = max(range(3), key=lambda k: G[k]) if dim == 3 else max(range(dim), key=lambda k: G[k])
-            layers = rng.sample(sorted(set(p[ax] for p in pts)), min(2, len(set(p[ax] for p in pts))))
-            cand = [p for p in pts if p[ax] in layers[:rng.choice([1, 2])]]
+            levels = sorted(set(p[ax] for p in pts))
+            l0 = rng.randrange(max(1, len(levels) - 1))
+            layers = levels[l0:l0 + 2]                      # two adjacent layers: more than six generators, a wide gap across the period
+            cand = [p for p in pts if p[ax] in layers]
             sel = cand if len(cand) <= max(n, 8) else rng.sample(cand, max(n, 8))
         elif kind in ("fcc", "bcc"):
             # face-centred / body-centred sub-lattices: cells with vertices where four or more faces meet
